@@ -232,13 +232,42 @@ theorem chargeBridgingFee_bal (s : St) (p : Packet) :
 /-- **finalize_pays_fulfiller** — the release of a packet credits (and, for the bridging fee, debits)
     only the address the packet currently names, and the channel escrow: once a fulfilment has
     rewritten the packet to the fulfiller / LP, the original recipient receives nothing further. -/
+theorem fwdSettle_bal {s s' : St} {p : Packet} {r : Nat × Nat} (h : fwdSettle s p r = some s') :
+    ∀ a' d', a' ≠ escrowAcct p.chan → a' ≠ escrowAcct r.1 → getBal s'.bal a' d' = getBal s.bal a' d' := by
+  intro a' d' h2 h3
+  unfold fwdSettle at h
+  split at h
+  · cases h
+  · rename_i s1 h1
+    split at h
+    · cases h
+    · cases h
+      show getBal s1.bal a' d' = _
+      split at h1
+      · cases h1; rfl
+      · unfold fwdRefundFunds at h1
+        split at h1
+        · split at h1
+          · rw [(sendCoins_spec h1).2 a' d']; simp [h2, h3]
+          · split at h1
+            · cases h1
+            · cases h1; rw [getBal_debit]; simp [h2]
+        · cases h1; rw [getBal_credit]; simp [h3]
+
+/-- (a packet the hub sent as a packet-forward is settled between the two channel escrows: see
+    `finalize_pays_fulfiller_counterexample`) -/
 theorem release_touches_only_target (s : St) (p : Packet) :
-    ∀ a' d', a' ≠ p.target → a' ≠ escrowAcct p.chan → getBal (releaseEffect s p).1.bal a' d' = getBal s.bal a' d' := by
-  intro a' d' h1 h2
+    ∀ a' d', a' ≠ p.target → a' ≠ escrowAcct p.chan → (∀ r, p.fwd = some r → a' ≠ escrowAcct r.1) →
+      getBal (releaseEffect s p).1.bal a' d' = getBal s.bal a' d' := by
+  intro a' d' h1 h2 h3
   have hrefund : getBal (refundRelease s p).1.bal a' d' = getBal s.bal a' d' := by
     unfold refundRelease
     split
-    · rename_i s1 hr; exact icsCredit_bal hr a' d' h1 h2
+    · rename_i s1 hr
+      unfold icsRefund at hr
+      split at hr
+      · exact icsCredit_bal hr a' d' h1 h2
+      · rename_i r hfw; exact fwdSettle_bal hr a' d' h2 (h3 r hfw)
     · rfl
   have hwrite : ∀ (s1 : St) (b : Bool), (writeRecvAck s1 p b).1.bal = s1.bal := by
     intro s1 b; unfold writeRecvAck
@@ -264,7 +293,9 @@ theorem release_touches_only_target (s : St) (p : Packet) :
   · rw [hwrite]; exact hrecv
   · split
     · exact hrefund
-    · rfl
+    · unfold ackRelease; split
+      · rfl
+      · exact hrefund
   · exact hrefund
   · rfl
 
@@ -275,7 +306,8 @@ theorem afterPacketStatusUpdated_bal (s : St) (a b : Bytes) (st : Status) : (aft
 /-- the whole finalization moves coins only through that release -/
 theorem finalize_pays_fulfiller {s s' : St} {k : Bytes} (h : finalizePacket s k = .ok s') :
     ∃ p, getPacket s k = some p ∧
-      ∀ a' d', a' ≠ p.target → a' ≠ escrowAcct p.chan → getBal s'.bal a' d' = getBal s.bal a' d' := by
+      ∀ a' d', a' ≠ p.target → a' ≠ escrowAcct p.chan → (∀ r, p.fwd = some r → a' ≠ escrowAcct r.1) →
+        getBal s'.bal a' d' = getBal s.bal a' d' := by
   unfold finalizePacket at h
   split at h
   · cases h
@@ -286,10 +318,10 @@ theorem finalize_pays_fulfiller {s s' : St} {k : Bytes} (h : finalizePacket s k 
       split at h
       · cases h
       · cases h
-        refine ⟨p, hp, fun a' d' h1 h2 => ?_⟩
+        refine ⟨p, hp, fun a' d' h1 h2 h3 => ?_⟩
         rw [afterPacketStatusUpdated_bal]
         show getBal (releaseEffect s p).1.bal a' d' = _
-        exact release_touches_only_target s p a' d' h1 h2
+        exact release_touches_only_target s p a' d' h1 h2 h3
 
 -- ================================================================== price_identity
 
@@ -333,6 +365,7 @@ theorem price_identity_on_recv {s s' : St} {p : Packet} {m : Memo} (h : eibcOnRe
         · split at hfee
           · cases hfee
           · rename_i f hf; cases hfee; exact Int.not_lt.mp hf
+        · cases hfee; exact Int.le_refl 0
 
 /-- the order created for a refund (error acknowledgement / timeout): price + fee = amount, both positive -/
 theorem price_identity_on_refund {s s' : St} {p : Packet} (h : eibcOnRefund s p = .ok s') :
